@@ -17,6 +17,10 @@ CLAIMS = {
          'util::Fd: every handle operation under a CBMC function contract (reference count exact, descriptor closed exactly when the last handle goes or on close(), never twice; unbounded) plus short-history lemmas. cabinet::Cabinet<T>: representation invariant + abstract token->object map effect of alloc/free/update/at/clear checked for every cabinet state up to capacity 8 (bounded stand-in: the union in Cell rules out symbolic capacity); dead tokens stay dead across slot reuse and clear(). ObjectPool and lifetime_tag are not covered.',
          'Trusted: printer, CBMC, std::function / std::vector models, explicit-instantiation driver. Cabinet results are B(capacity 8), not proofs. ObjectPool (variadic placement-new template) outside the printer subset: not covered.',
          'CBMC function contracts (Fd) and bounded symbolic harnesses on the extracted real code (Cabinet)', '6 C08'),
+ 'C11': ('proof',
+         'Module::initialize/start/stop/cleanup under CBMC contracts for every module state, every number of children (loop contracts), every hook outcome: balance invariant (successful init <-> pending cleanup, successful start <-> pending stop) on every exit incl. failing required children, hooks only in legal states (start after init, stop only started, cleanup after stop), parent before children, children in registration order / exact reverse order, optional-child failures tolerated. Recursion through child-view contracts.',
+         'Trusted: printer, CBMC, std::vector/std::string/Json models, hook stubs (any result). Induction over tree depth is a paper step; add()/~Module/Main() not covered.',
+         'CBMC function contracts + loop contracts with ghost call counters on mechanically extracted C', '6 C11'),
  'C19': ('proof',
          'Per-function CBMC contracts and loop-free/complete-unwinding lemmas on the C re-printed from the real codec sources: size functions, frames (no write beyond capacity, no read outside input), exact inverse on every value, CRC/checksum/MD5/AES equal to reference definitions written from the standards.',
          'Trusted: clang-AST->C printer, CBMC+SAT, allocator never fails, libc models; std::string/vector overloads only through their shared loops; see evidence.assumptions.',
